@@ -35,8 +35,8 @@ def insertSorted (s : String) : List String → List String
   | a :: t => if s == a then a :: t else if s < a then s :: a :: t else a :: insertSorted s t
 
 /-- outcomes of the pool model (discipline of the regenerated facts) over a set of pseudo-random schedules -/
-def failOutcomes (d : Discipline) (npairs n k : Nat) : List String :=
-  let P : Params Nat Nat := ⟨id, fun j => j == k, 100, d⟩
+def failOutcomes (d : Discipline) (npairs n k : Nat) (from_ : Bool := false) : List String :=
+  let P : Params Nat Nat := ⟨id, fun j => if from_ then j ≥ k else j == k, 100, d⟩
   let c0 : Cfg Nat Nat := init (List.range npairs) n
   let fuel := mu c0 + 1
   (List.range 24).foldl (fun acc seed => insertSorted (outcomeOf (runRandom P fuel (seed * 7919 + 1) c0)) acc) []
@@ -217,7 +217,7 @@ def handle : Handler := fun op args impl =>
     let ok := impl == model
     some ⟨model, if first.startsWith "err" then (if ok then "na" else "fail:thread-count-changes-outcome")
                  else verdictOf ok "thread-count-changes-matrix"⟩
-  | "distfail", [rows, cpus, k, _mode, _] => do
+  | "distfail", [rows, cpus, k, mode, _] => do
     let rows ← decRows rows
     let n ← cpus.toNat?
     let k ← k.toNat?
@@ -225,7 +225,7 @@ def handle : Handler := fun op args impl =>
     let d := disciplineOf Gen.Facts.distMatrix
     if n == 0 then some ⟨"unmodelled", "na"⟩ else
     if k ≥ npairs then some ⟨"returned-nil", verdictOf (impl == "returned-nil") "spurious-error"⟩ else
-    let outs := failOutcomes d npairs n k
+    let outs := failOutcomes d npairs n k (mode == "pairfrom")
     some ⟨"|".intercalate outs, if impl == "returned-error" then "pass" else "fail:error-not-returned:" ++ impl⟩
   | "distjobs", [n, ranges, cpus] => do
     let n ← n.toNat?
